@@ -152,7 +152,11 @@ def apply_mut(wt, m):
     lines = open(p).read().split("\n")
     i = m["line"] - 1
     span = m.get("span", 1)
-    assert "\n".join(lines[i:i + span]) == m["old"], (m["id"], lines[i], m["old"])
+    if "\n".join(lines[i:i + span]) != m["old"]:
+        # the file moved since the mutant was enumerated: relocate by unique text
+        cands = [k for k in range(len(lines)) if "\n".join(lines[k:k + span]) == m["old"]]
+        assert len(cands) == 1, (m["id"], "cannot relocate", m["old"])
+        i = cands[0]
     lines[i:i + span] = m["new"]
     open(p, "w").write("\n".join(lines))
 
@@ -253,8 +257,8 @@ def stage_filter(out_path, workers, files):
     print("SUMMARY", cnt)
 
 
-ORDER_PARSE = ["C14", "C15", "C01", "C02", "C05", "C13", "C16", "C11", "C12", "C03", "C04", "C06", "C10", "C17", "C18", "C08", "C09", "C07", "C19", "C20"]
-ORDER_GEN = ["C05", "C01", "C04", "C03", "C11", "C12", "C13", "C16", "C02", "C17", "C18", "C08", "C09", "C07", "C10", "C06", "C15", "C14", "C19", "C20"]
+ORDER_PARSE = ["C14", "C15", "C13", "C05", "C01", "C02", "C04", "C03", "C11", "C12", "C16", "C17", "C18", "C08", "C09", "C07", "C10", "C06", "C19", "C20"]
+ORDER_GEN = ["C15", "C14", "C13", "C05", "C04", "C03", "C01", "C02", "C11", "C12", "C16", "C17", "C18", "C08", "C09", "C07", "C10", "C06", "C19", "C20"]
 
 
 def stage_checks(in_path, out_path, workers, only=None):
@@ -287,7 +291,14 @@ def stage_checks(in_path, out_path, workers, only=None):
                 m = q.get_nowait()
             except queue.Empty:
                 break
-            apply_mut(wt, m)
+            try:
+                apply_mut(wt, m)
+            except AssertionError as e:
+                m["caught_by"], m["witness"], m["tried"] = "SKIPPED", repr(e)[:200], []
+                with lock:
+                    results.append(m)
+                    save()
+                continue
             order = ORDER_GEN if ("join_output" in m["file"] or "name_constructors" in m["file"] or "lib.rs" in m["file"] or "process_expr" in m["file"] or "err_expr" in m["file"]) else ORDER_PARSE
             m["caught_by"], m["witness"], m["tried"] = None, "", []
             t0 = time.time()
